@@ -1586,3 +1586,65 @@ theorem parse_scalarFree (W : World) (Q : Quirks) (E : Env) (fuel : Nat) : Scala
   | succ n ih => exact step_scalarFree ih
 
 end Utv.C18
+
+namespace Utv.C18
+
+theorem parse_rel2 (W : World) (Q : Quirks) (hQ : Q.falsyRoute = false) (E : Env) (hE : envUnamb E = true)
+    (fuel : Nat) : Rel2 (parse W Q E fuel) (parse W Q (unlimited E) fuel) := by
+  induction fuel with
+  | zero =>
+    constructor
+    · intro c c' T v _ _; rfl
+    · intro c T v r _ h; simp [parse] at h
+    · intro c c' T v r _ _ _ h; simp [parse] at h
+    · intro c c' T v _ _ _ _ h; simp [parse, Out.isOk] at h
+  | succ n ih => exact step_rel2 hQ hE (parse_rel W Q hQ E n) (parse_scalarFree W Q (unlimited E) n) ih
+
+theorem envUnamb_withLimit (d : Nat) (E : Env) : envUnamb (withLimit d E) = envUnamb E := by
+  simp [envUnamb, withLimit, List.all_map, Function.comp_def]
+
+/-- **The limit does not change the reading** when no union has two container alternatives: whatever is
+accepted under the limits is parsed to the very same result without them. -/
+theorem C18_limit_same_reading (W : World) (Q : Quirks) (hQ : Q.falsyRoute = false) (E : Env)
+    (hE : envUnamb E = true) (fuel : Nat) (c : Ctx) (T : Ty) (hT : unamb T = true) (v : Val) (r : Res)
+    (h : (parse W Q E fuel c T v).1 = .ok r) : (parse W Q (unlimited E) fuel c T v).1 = .ok r :=
+  (parse_rel2 W Q hQ E hE fuel).agree c c T v r hT rfl rfl h
+
+/-- **The depth limit is exact — on verdicts** (the property's biconditional, verbatim): for declarations in which
+no union has two container alternatives, with `max_depth = d ≥ 1` on every class, a value is accepted **if and only
+if** it is accepted without limit with a result whose data-class nesting depth is at most `d` — wherever the nested
+value sits. -/
+theorem C18_depth_exact_iff (W : World) (Q : Quirks) (hQ : Q.falsyRoute = false) (hR : Q.rootLevel = false)
+    (E : Env) (hE : envUnamb E = true) (d : Nat) (hd : d ≠ 0) (fuel : Nat) (via : Bool) (k : Nat) (v : Val) :
+    (parseTop W Q (withLimit d E) fuel via k v).1.isOk = true ↔
+      ∃ r, (parseTop W Q (unlimited E) fuel via k v).1 = .ok r ∧ rdepth r ≤ d := by
+  have hex := C18_depth_exact W Q hQ hR E d hd fuel via k v
+  constructor
+  · intro h
+    obtain ⟨r, hr⟩ := (isOk_true_iff _).1 h
+    refine ⟨r, ?_, (hex.1 r hr).1⟩
+    have := C18_limit_same_reading W Q hQ (withLimit d E) (by rw [envUnamb_withLimit]; exact hE) fuel
+      { depth := if via && Q.rootLevel then 1 else 0, mode := Mode.lenient, md := none } (.data k) rfl v r hr
+    rw [unlimited_withLimit] at this
+    exact this
+  · rintro ⟨r, hr, hle⟩
+    rw [(hex.2 r hr).2 hle]; rfl
+
+/-- non-vacuity: the usual recursive declarations are unambiguous … -/
+example : envUnamb
+    [{ fields := [("v", .leaf), ("nx", .union [.data 0, .none]), ("u", .union [.leaf, .data 0, .none]),
+                  ("kids", .list (.union [.data 0, .none])), ("m", .dict .str (.data 0))] }] = true := by decide
+
+/-- … and the hypothesis is needed: with two data-class alternatives the limit changes the reading (the value
+is too deep for class 0 but class 1, which has no `nx`, reads it as a flat instance) -/
+theorem C18_ambiguous_union_witness :
+    let E : Env := [{ fields := [("v", .leaf), ("nx", .union [.data 0, .data 1, .none])] }, { fields := [("v", .leaf)] }]
+    let v := twoLevels (twoLevels leafNode)
+    envUnamb E = false ∧
+    (parseTop W0 Quirks.fixed (withLimit 2 E) 20 false 0 v).1.isOk = true ∧
+    (match (parseTop W0 Quirks.fixed (unlimited E) 20 false 0 v).1 with
+     | .ok r => rdepth r
+     | .err _ => 0) = 3 := by
+  decide
+
+end Utv.C18
